@@ -14,5 +14,26 @@ def register(claim):
           "Python-level observation of cohdl classes; lattice model written from the property statement",
           "DESIGN.md 3/C13")
 
+    claim("C03",
+          "Grammar-generated bodies of clocked, combinational and concurrent contexts (if/elif/else, match, for-break[-else], "
+          "helper calls with returns in nested branches, all assignment forms incl. push, slice/bit targets, local "
+          "declarations, cohdl.always) are compiled, the emitted VHDL is simulated and compared after EVERY step on EVERY "
+          "output and internal signal with a reference interpreter executing the same spec on Python ints. Divergences are "
+          "minimised to a root-cause signature. Exploration over programs and input sequences, bounded depth/size.",
+          SIM_NOTE, "DESIGN.md 3/C03")
+    claim("C09",
+          "Every operator/method x operand-kind pair (bit, bv, u, s, Python int and cohdl.Integer on either side) x widths "
+          "1..4 x ALL operand valuations: cohdl's constant folding (direct call and traced context + pyeval probe) compared "
+          "with a reference model of the documented kind/width/value rules; exhaustive per cell.",
+          "model returns UNSPEC / value-None where the statements are silent (x/0, unrepresentable int, shift >= width, mixed "
+          "signedness); fold exceptions are counted as fold_rejected", "DESIGN.md 3/C09")
+    claim("C19",
+          "Complete enumeration (thorough: all 36 formats -3<=r<=l<=4, both signednesses, every source x target x round x "
+          "overflow cell with ALL raw values; all + - * format pairs of width <= 4 with all raw pairs; constructor and "
+          "equality cells) compared with an exact rational (Fraction) reference: floor / round-half-even, then wrap or "
+          "saturate. Observed on Python objects (all cells) and through a traced context with a pyeval probe (sampled).",
+          "any cohdl exception counts as rejected; always-rejected cell classes are visible in the label histogram",
+          "DESIGN.md 3/C19")
+
 
 NOT_APPLICABLE = {}
